@@ -604,6 +604,75 @@ def c17_atmos(rng, tier):
     return out
 
 
+@oracle("C17", "atmosphere_continuity")
+def c17_atmos_continuity(rng, tier):
+    """continuity in altitude, searched with the model as a guide: a window of the table is scanned; every step must respect a
+    Lipschitz bound derived from the table (20 x the largest secant slope of the column: the Akima segments are cubic Hermite
+    polynomials whose knot slopes are combinations of neighbouring secants); where the code starts to differ from the modelled
+    interpolant the switch point is bracketed by bisection to ~1e-7 ft and the same bound is demanded across the bracket"""
+    from openaerostruct.common.atmos_comp import AtmosComp
+    from . import generate
+    cols = generate.atmos_columns()
+    alt = np.array(cols["alt"]); n = len(alt)
+    names = ["T", "P", "rho", "speed_of_sound", "mu", "v"]
+    M = float(rng.uniform(0.1, 0.9))
+    tab = [np.array(cols[k]) for k in ("T", "P", "rho", "a", "viscosity")]
+    lip = [20.0 * float(np.max(np.abs(np.diff(c) / np.diff(alt)))) for c in tab]
+    lip.append(M * lip[3])
+    lip = np.array(lip)
+    consts = np.concatenate([alt] + tab)
+    kind = CURRENT_K % 4
+    if kind == 0:
+        lo = 35500.0
+    elif kind == 1:
+        lo = 64500.0
+    elif kind == 2:
+        lo = float(rng.uniform(alt[0], 98000.0))
+    else:
+        lo = float(rng.uniform(100000.0, alt[-1] - 2000.0))
+    hs = lo + np.linspace(0.0, 2000.0, 41) + rng.uniform(0, 1e-3)
+    prob = comp_problem(AtmosComp(), dict(altitude=np.array([hs[0]]), Mach_number=np.array([M])))
+
+    def code(h):
+        prob.set_val("altitude", h)
+        with quiet():
+            prob.run_model()
+        return np.array([float(prob.get_val(o)[0]) for o in names])
+
+    def model(h):
+        return core.model_value("AtmosComp", [n], np.concatenate([consts, [h, M]]))
+
+    def jump(a, b, fa, fb):
+        tol = lip * (b - a) + 1e-10 * np.maximum(np.abs(fa), np.abs(fb))
+        bad = np.nonzero(np.abs(fb - fa) > tol)[0]
+        return [(names[i], float(fa[i]), float(fb[i])) for i in bad]
+
+    out = []
+    F = [code(h) for h in hs]
+    for k in range(len(hs) - 1):
+        for (o, x, y) in jump(hs[k], hs[k + 1], F[k], F[k + 1]):
+            out.append(_fail("%s changes faster across a %.0f ft step than any interpolant of the table can" % (o, hs[k + 1] - hs[k]), y, x,
+                             altitude_ft=[float(hs[k]), float(hs[k + 1])], Mach=M))
+    agree = [bool(np.all(np.abs(F[k] - model(hs[k])) <= 1e-8 * np.abs(F[k]))) for k in range(len(hs))]
+    for k in range(len(hs) - 1):
+        if agree[k] != agree[k + 1] and not out:
+            a, b = float(hs[k]), float(hs[k + 1]); sa = agree[k]
+            for _ in range(60):
+                if b - a < 1e-7:
+                    break
+                c = 0.5 * (a + b); fc = code(c)
+                if bool(np.all(np.abs(fc - model(c)) <= 1e-8 * np.abs(fc))) == sa:
+                    a = c
+                else:
+                    b = c
+            fa, fb = code(a), code(b)
+            for (o, x, y) in jump(a, b, fa, fb):
+                out.append(_fail("%s jumps at the altitude where the component stops following the interpolant of its table" % o, y, x,
+                                 altitude_ft=[a, b], Mach=M))
+            break
+    return out
+
+
 # ---------------------------------------------------------------------------------------
 # C18
 # ---------------------------------------------------------------------------------------
